@@ -163,6 +163,9 @@ func (s *Sim) issueAdmin(a *adminReq, call func(nh *dragonboat.NodeHost) (*drago
 	if err != nil || rs == nil {
 		s.ctx.Count("probe.admin_refused", 1)
 		s.ctx.Tracef("admin %s refused: %v", a.what, err)
+		if strings.HasPrefix(a.what, "final-") && len(s.finalAdminLog) < 300 {
+			s.finalAdminLog += fmt.Sprintf("%s via h%d refused: %v; ", a.what, h.id+1, err)
+		}
 		if a.target != nil && (a.what == "add" || a.what == "addnv" || a.what == "addwitness") {
 			a.target.addIssued = false
 		}
